@@ -61,4 +61,8 @@ def handlePrefix : List Sx → Sx
     | _, _, _ => Sx.bad
   | _ => Sx.bad
 
+/-- request names served by this module (collected into `JinjaV.Wire.All` by tools/gen_wire_all.py) -/
+def handlers : List (String × (List Sx → Sx)) :=
+  [("path-split", handleSplit), ("path-join", handleJoin), ("path-choice", handleChoice), ("path-prefix", handlePrefix)]
+
 end JinjaV.Wire.Path
